@@ -192,13 +192,13 @@ PROPS = {
         'title': 'I/O faults are surfaced, never swallowed or turned into partial results',
     },
     'C11': {
-        'families': [('sc', ['SC-C11']), ('nf', ['NF']), ('kv', ['KV'])],
-        'floors': {'SC-C11': 24, 'NF': 40, 'KV': 15},
+        'families': [('sc', ['SC-C11']), ('nf', ['NF']), ('kv', ['KV']), ('ea', ['EA'])],
+        'floors': {'SC-C11': 24, 'NF': 40, 'KV': 15, 'EA': 8},
         'title': 'Key/value, event and colour records decode per the format rules',
     },
     'C12': {
-        'families': [('sc', ['SC-C12']), ('ss12', ['SS-C12'])],
-        'floors': {'SC-C12': 12, 'SS-C12': 8},
+        'families': [('sc', ['SC-C12']), ('ss12', ['SS-C12']), ('ss13', ['SS-C13'])],
+        'floors': {'SC-C12': 12, 'SS-C12': 8, 'SS-C13': 13},
         'title': 'Timing-point lines resolve by the legacy precedence rules',
     },
     'C13': {
@@ -208,7 +208,7 @@ PROPS = {
     },
     'C14': {
         'families': [('sc', ['SC-C14']), ('ss14', ['SS-C14']), ('ab', ['AB'])],
-        'floors': {'SC-C14': 20, 'SS-C14': 8, 'AB': 4},
+        'floors': {'SC-C14': 28, 'SS-C14': 8, 'AB': 4},
         'title': 'Hit-object lines decode per the legacy grammar',
     },
     'C15': {
